@@ -212,8 +212,19 @@ def shard(args):
         framing = r.pick(['cl', 'chunked', 'close']) if side == 'res' else r.pick(['cl', 'chunked'])
         fh, fbody = frame(r, body, framing)
         if side == 'res':
-            req = b'GET /c07 HTTP/1.1\r\nHost: h\r\n\r\n'
-            head = ('HTTP/1.1 200 OK\r\nContent-Encoding: %s\r\n%s\r\n' % (ce, ''.join(h + '\r\n' for h in fh))).encode('latin-1')
+            # any status that has a body, any method that may have one answered, either protocol version: the coding is a property of the
+            # entity, not of the status line (206 answers a Range request that covers the whole representation)
+            st = r.pick(['200 OK'] * 6 + ['206 Partial Content', '206 Partial Content', '201 Created', '203 Non-Authoritative Information', '404 Not Found',
+                                          '500 Internal Server Error', '403 Forbidden', '226 IM Used', '299 Odd'])
+            ver = 'HTTP/1.0' if framing != 'chunked' and r.chance(0.15) else 'HTTP/1.1'
+            rng = 'Range: bytes=0-\r\n' if st.startswith('206') else ''
+            req = ('%s /c07 HTTP/1.1\r\nHost: h\r\n%s\r\n' % (r.pick(['GET', 'GET', 'POST', 'PUT', 'DELETE', 'OPTIONS']), rng)).encode()
+            xh = r.pick(['', '', 'Content-Type: text/plain\r\n', 'Vary: Accept-Encoding\r\n'])
+            if st.startswith('206'):
+                xh += 'Content-Range: bytes 0-%d/%d\r\n' % (max(len(body), 1) - 1, len(body))
+            xh1, xh2 = (xh, '') if r.chance(0.5) else ('', xh)
+            head = ('%s %s\r\n%sContent-Encoding: %s\r\n%s%s\r\n' % (ver, st, xh1, ce, xh2, ''.join(h + '\r\n' for h in fh))).encode('latin-1')
+            tag += '' if st.startswith('200') else ':st' + st[:3]
             msg = head + fbody
             follow_req, follow_res = b'', b''
             if framing != 'close' and r.chance(0.5):
